@@ -25,7 +25,7 @@ O = 'Scalibr.Override.'
 R = 'Scalibr.Relax.'
 S = 'Scalibr.Suggest.'
 M = 'Scalibr.OverrideMulti.'
-THEOREMS = [U + 'C11_allows_table', U + 'C11_allows_meaning', U + 'C11_rank_exists_iff', U + 'C11_rank_is_order_partial', U + 'C11_no_rank_of_cycle', U + 'C11_semantic_maven_has_no_rank',
+THEOREMS = [U + 'C11_allows_table', U + 'C11_allows_meaning', U + 'C11_config_strings_meaning', U + 'C11_config_strings_allows', U + 'C11_config_strings_witnesses', U + 'C11_rank_exists_iff', U + 'C11_rank_is_order_partial', U + 'C11_no_rank_of_cycle', U + 'C11_semantic_maven_has_no_rank',
             O + 'C11_override_step', O + 'C11_override_upward_partial', O + 'C11_override_upward_cmp_partial', O + 'C11_override_unsorted_witness', O + 'C11_override_equal_version_fixed',
             O + 'C11_cumulative_partial', O + 'C11_terminates_partial', O + 'C11_terminates_bound_partial',
             M + 'C11_terminates_multi_partial', M + 'C11_terminates_multi_bound_partial', M + 'C11_cumulative_multi_partial',
@@ -69,14 +69,18 @@ def run(ctx):
                 'introduced-vulnerability graph), through the real public FixVulns (relax) under a 4 s watchdog: a call that does not return is `r=hang`; '
                 'up = a pom that declares the same groupId:artifactId several times with different versions (jar / test-jar / classifier variants in <dependencies>, dependencyManagement, a profile, a pluginManagement plugin; '
                 'versions across major and minor boundaries, ranges, unknown versions; per-package and default levels; IgnoreDev) through the real public Update, judged per requirement on result.Patches and per declaration on the re-read pom. thorough adds every subset of 6 versions x level x '
-                '1-2 chained vulnerabilities (override) and 25 requirements x 4 levels x 3 universes (relax). non-trivial = the real code changed something; distinct = distinct case lines')
+                '1-2 chained vulnerabilities (override) and 25 requirements x 4 levels x 3 universes (relax). '
+                'cf = --upgrade-config lists through the real NewConfigFromStrings: 1-6 entries over 1-3 packages from a pool of 17 names (plain, @scope/name, Maven g:a, names with three colons, empty segments, a name ending in a level word, '
+                'blanks, non-ASCII) + the default level as bare word or ":word", repeated packages, every fifth word not a level (unknown word, other case, blanks / tab around it, empty, a colon inside); queried: every named package, its '
+                'prefix before the first colon, its trimmed spelling, the default, an unnamed package; plus every pool name x every level x {alone, after a default, overwritten, followed by an invalid entry}. '
+                'About half of the rx / ov / mo / rl / up cases (by a hash of the case) build their upgrade.Config through NewConfigFromStrings too ("g:p:minor", default as "minor" or ":minor", an overwritten earlier entry, an ignored "pkg:latest"). non-trivial = the real code changed something; distinct = distinct case lines')
     gen_ok = regenerate_allows(ctx)
     ok, _ = ctx.lean_build(['Scalibr.Properties.C11', 'Scalibr.Properties.C11MavenCycle', 'drv_c11'])
     proofs_ok = ctx.audit(['Scalibr.Properties.C11', 'Scalibr.Properties.C11MavenCycle'], THEOREMS) and gen_ok
     if ctx.tier == 'thorough':
         proofs_ok = ctx.leanchecker('Scalibr.Properties.C11') and proofs_ok
     n = {'quick': 4000, 'thorough': 40000}[ctx.tier]
-    KEYS = ['r', 'final', 'greater', 'pins', 'res', 'ups', 'pom']
+    KEYS = ['r', 'final', 'greater', 'pins', 'res', 'ups', 'pom', 'cfg', 'get']
 
     def agree(fi, fm):
         return all(fi.get(k) == fm.get(k) for k in KEYS)
@@ -97,6 +101,8 @@ def run(ctx):
             return fi.get('ups', '-') != '-'
         if op == 'rl':
             return fi.get('patches', '0') != '0'
+        if op == 'cf':
+            return fi.get('cfg', '-') != '-'
         return r == 'ok' and fi.get('final') != case.split(' | ')[1].split(' ')[1]
 
     def oracle(case, fi, fm):
@@ -105,6 +111,12 @@ def run(ctx):
         r = fi.get('r', fi.get('_', ''))
         if r == 'panic':
             return 'the real code panicked'
+        if op == 'cf':
+            if fm.get('wf') == '1' and fi.get('get') != fm.get('spec'):
+                return ('NewConfigFromStrings: the level Config.Get returns for a queried package is not the one the entries say (last valid '
+                        '"pkg:level" entry for the package, split at the LAST colon; else the last valid default entry; else major): got %s, intended %s'
+                        % (fi.get('get'), fm.get('spec')))
+            return None
         if op == 'rx':
             if r[:1] in ('t', 'c') and r[1:].isdigit():
                 a, _, b = fi.get('tops', '-1:-1').partition(':')
@@ -202,6 +214,8 @@ def run(ctx):
             return 'mo r=%s%s' % (r, extra)
         if op == 'rl':
             return 'rl r=%s patches=%s' % (r, fi.get('patches'))
+        if op == 'cf':
+            return 'cf r=%s wf=%s entries=%s' % (r, fm.get('wf'), 'some' if fi.get('cfg', '-') != '-' else 'none')
         if op == 'up':
             return 'up r=%s updates=%s samekey=%s' % (r, 'some' if fi.get('ups', '-') != '-' else 'none', '1' if 'pomd' in fm else '0')
         return '%s level=%s r=%s%s' % (op, case.split(' ')[1], r, extra)
